@@ -8,18 +8,22 @@
     accepted the block but needs time (a long duration command), or an error code.
   * Get upgrade status (cmd 34h): response = PICMG id, command in progress, last completion
     code, [completion estimate].  While a long duration command is executing the last
-    completion code is 80h; afterwards it is the command's final code.
+    completion code is 80h; afterwards it is the command's FINAL code: 00h when the command
+    succeeded, any other code when it failed.  A block accepted with 80h has been uploaded only
+    when the status reports 00h; a requester that goes on to the next block before that, or
+    after a final code other than 00h, has not uploaded the binary.
 
   The device is driven by a *plan*: what it answers to the i-th Upload-firmware-block request
   it receives (i = 0, 1, …): accept, accept-as-long-duration (the next `polls` status
-  requests still say 80h), reject with a code, or stay silent.  It records every request.
+  requests still say 80h, every later one reports the final code `final`), reject with a
+  code, or stay silent.  It records every request.
 -/
 import PyIpmi.Base.Bytes
 namespace PyIpmi.Spec.HpmDevice
 
 inductive Reply where
   | ok
-  | inProgress (polls : Nat)
+  | inProgress (polls : Nat) (final : Nat)
   | err (cc : Nat)
   | noAnswer
   deriving Repr, DecidableEq, Inhabited
@@ -44,27 +48,32 @@ structure Dev where
   plan : Nat → Reply
   idx : Nat := 0            -- number of Upload-firmware-block requests received so far
   pending : Nat := 0        -- status requests that will still report "in progress"
+  final : Nat := 0          -- what the status reports once the long duration command has ended
   trace : List Ev := []     -- chronological
 
 def Dev.init (plan : Nat → Reply) : Dev := { plan := plan }
 
 def replyRsp : Reply → Rsp
   | .ok => .cc 0
-  | .inProgress _ => .cc ccInProgress
+  | .inProgress _ _ => .cc ccInProgress
   | .err c => .cc c
   | .noAnswer => .silent
 
 def replyPending : Reply → Nat
-  | .inProgress k => k
+  | .inProgress k _ => k
+  | _ => 0
+
+def replyFinal : Reply → Nat
+  | .inProgress _ f => f
   | _ => 0
 
 def Dev.upload (d : Dev) (num : Nat) (data : List Nat) : Rsp × Dev :=
   (replyRsp (d.plan d.idx),
-   { d with idx := d.idx + 1, pending := replyPending (d.plan d.idx),
+   { d with idx := d.idx + 1, pending := replyPending (d.plan d.idx), final := replyFinal (d.plan d.idx),
             trace := d.trace ++ [.block num data] })
 
 def Dev.getStatus (d : Dev) : Rsp × Dev :=
-  (.status cmdUploadBlock (if d.pending = 0 then 0 else ccInProgress),
+  (.status cmdUploadBlock (if d.pending = 0 then d.final else ccInProgress),
    { d with pending := d.pending - 1, trace := d.trace ++ [.status] })
 
 /-! ### The property, as predicates over the recorded trace -/
@@ -83,25 +92,67 @@ def pollsOk (plan : Nat → Reply) : Nat → List Ev → Bool
   | i, .status :: r => pollsOk plan i r
   | i, .block _ _ :: r =>
     (match plan i with
-     | .inProgress _ => (match r with | .status :: _ => true | _ => false)
+     | .inProgress _ _ => (match r with | .status :: _ => true | _ => false)
      | _ => true) && pollsOk plan (i + 1) r
+
+/-- the status requests at the head of a trace (those recorded before the next block) -/
+def leadingPolls : List Ev → Nat
+  | .status :: r => leadingPolls r + 1
+  | _ => 0
+
+/-- "… before continuing": a block the plan answered 80h (`polls` further in-progress answers,
+then the final code) counts as uploaded only when the requester saw the long duration command
+end (more than `polls` status requests follow the block before anything else) and the final
+code was 00h.  Walking the trace, `i` counts the blocks seen so far; blocks from number `upto`
+on are not judged here (an aborted upload is judged up to the block it was aborted at). -/
+def waitsOk (plan : Nat → Reply) (upto : Nat) : Nat → List Ev → Bool
+  | _, [] => true
+  | i, .status :: r => waitsOk plan upto i r
+  | i, .block _ _ :: r =>
+    (decide (upto ≤ i) ||
+     (match plan i with
+      | .inProgress k f => decide (k < leadingPolls r) && decide (f = 0)
+      | _ => true)) && waitsOk plan upto (i + 1) r
 
 /-- blocks are numbered consecutively modulo 256 from `i`, non-empty and at most `bs` long -/
 def numberedFrom (bs : Nat) : Nat → List (Nat × List Nat) → Bool
   | _, [] => true
   | i, (n, d) :: r => (n == i % 256) && decide (0 < d.length) && decide (d.length ≤ bs) && numberedFrom bs (i + 1) r
 
-/-- A complete, exact upload of `binary`. -/
+/-- A complete, exact upload of `binary`: every byte once and in order, blocks numbered and sized,
+a status poll right after every 80h, and every block answered 80h seen through to a final 00h. -/
 def uploadExact (bs : Nat) (plan : Nat → Reply) (binary : List Nat) (trace : List Ev) : Bool :=
   decide (((blocksOf trace).map (·.2)).flatten = binary) && numberedFrom bs 0 (blocksOf trace) &&
-  pollsOk plan 0 trace
+  pollsOk plan 0 trace && waitsOk plan (blocksOf trace).length 0 trace
+
+/-- the status requests recorded after the last Upload-firmware-block request -/
+def pollsAfterLast : List Ev → Nat → Nat
+  | [], acc => acc
+  | .block _ _ :: r, _ => pollsAfterLast r 0
+  | .status :: r, acc => pollsAfterLast r (acc + 1)
+
+def trailingPolls (trace : List Ev) : Nat := pollsAfterLast trace 0
+
+/-- An upload aborted at block `j` whose long duration processing did not end with 00h (the
+status reported a final code other than 00h, or still 80h when the requester gave up):
+exactly the first `j+1` blocks were sent (a prefix of the binary, correctly numbered), block
+`j` is followed by status requests only - no block after it - and there is at least one. -/
+def uploadAbortedLongAt (bs : Nat) (plan : Nat → Reply) (binary : List Nat) (j : Nat) (trace : List Ev) : Bool :=
+  decide ((blocksOf trace).length = j + 1) &&
+  decide (((blocksOf trace).map (·.2)).flatten = binary.take (((blocksOf trace).map (·.2)).flatten.length)) &&
+  numberedFrom bs 0 (blocksOf trace) && pollsOk plan 0 trace && waitsOk plan j 0 trace &&
+  (match trace.getLast? with | some .status => true | _ => false)
+
+/-- Did the requester see the end of the long duration command of the LAST block it sent?
+(`polls` = in-progress answers the plan gives for that block) -/
+def sawFinal (polls : Nat) (trace : List Ev) : Bool := decide (polls < trailingPolls trace)
 
 /-- An upload aborted at block `j`: exactly the first `j+1` blocks were sent (a prefix of the
 binary, correctly numbered) and nothing at all after the rejected block. -/
 def uploadAbortedAt (bs : Nat) (plan : Nat → Reply) (binary : List Nat) (j : Nat) (trace : List Ev) : Bool :=
   decide ((blocksOf trace).length = j + 1) &&
   decide (((blocksOf trace).map (·.2)).flatten = binary.take (((blocksOf trace).map (·.2)).flatten.length)) &&
-  numberedFrom bs 0 (blocksOf trace) && pollsOk plan 0 trace &&
+  numberedFrom bs 0 (blocksOf trace) && pollsOk plan 0 trace && waitsOk plan j 0 trace &&
   (match trace.getLast? with | some (.block _ _) => true | _ => false)
 
 end PyIpmi.Spec.HpmDevice
